@@ -1,20 +1,2 @@
-(* GENERATED by translate/py2v.py from matched_markets/methodology/tbr_iroas.py, matched_markets/methodology/utils.py -- do not edit; rewritten on every run *)
-From Coq Require Import List ZArith Bool.
-From MM Require Import lib.Values model.CostFrame.
-Import ListNotations.
-
-Section Scenario.
-  Context {V : Type} (O : vops V) (vabs floor_log10 : V -> V) (neg_inf : V).
-  (* utils.float_order *)
-  Definition gen_float_order (x : V) : V :=
-    let abs_x := vabs x in
-    if vltb O (vofZ O 0%Z) abs_x then floor_log10 abs_x else neg_inf.
-  (* TBRiROAS._is_fixed_cost_scenario over the analysis data of the cost model *)
-  Definition gen_is_fixed_cost_scenario (adata : cframe V) (pre test control : Z) : bool :=
-    let costs_pre_costs := costs (in_period pre adata) in
-    let frame_subset := in_period test adata in
-    let costs_test_costs_cntrl := costs (of_group control frame_subset) in
-    let tot_costs := vadd O (vsum O costs_pre_costs) (vsum O costs_test_costs_cntrl) in
-    let tot_costs_order := gen_float_order tot_costs in
-    (vltb O tot_costs_order (vofZ O (-10)%Z)).
-End Scenario.
+(* translator refused: Unsupported: line 116: return <order> < -10 expected: Return(value=Compare(left=Name(id='tot_costs', ctx=Load()), ops=[Lt()], comparators=[Constant(value=1e-10)])) *)
+Translator_refused_this_source.
